@@ -1178,7 +1178,7 @@ func c35Total(r *vx.Run, fm int, b []byte, what string, outcomes *[3]atomic.Int6
 	var plainErr error
 	short := strings.HasPrefix(what, "short")
 	for _, o := range c35OptsFor(fm) {
-		if o.TypeUnit && (fm == c35Proto || (short && r.Quick())) {
+		if o.TypeUnit && (fm == c35Proto || short) {
 			continue // label decoration only
 		}
 		if c35Leaked.Load() > 8 {
@@ -1219,6 +1219,37 @@ func c35Total(r *vx.Run, fm int, b []byte, what string, outcomes *[3]atomic.Int6
 			for i := range es {
 				if es[i].Kind == "hist" && es[i].H == nil && es[i].FH == nil {
 					r.Violation("histogram-entry-without-histogram/"+c35FmtNames[fm], fmt.Sprintf("Next returned a histogram entry but Histogram() returned neither an integer nor a float histogram, parsing %s %q (options %s)", what, b, o), map[string]any{"facet": "bytes", "fmt": fm, "bytes": fmt.Sprintf("%x", b)})
+				}
+				if es[i].Kind == "hist" {
+					// structural consistency the parser promises (checkNativeHistogramConsistency)
+					var np, nn, bp, bn int
+					if h := es[i].H; h != nil {
+						for _, sp := range h.PositiveSpans {
+							np += int(sp.Length)
+						}
+						for _, sp := range h.NegativeSpans {
+							nn += int(sp.Length)
+						}
+						bp, bn = len(h.PositiveBuckets), len(h.NegativeBuckets)
+					} else if h := es[i].FH; h != nil {
+						for _, sp := range h.PositiveSpans {
+							np += int(sp.Length)
+						}
+						for _, sp := range h.NegativeSpans {
+							nn += int(sp.Length)
+						}
+						bp, bn = len(h.PositiveBuckets), len(h.NegativeBuckets)
+					}
+					if np != bp || nn != bn {
+						// precondition of the known finding: not the first metric of its family
+						later := ""
+						for k := i - 1; k >= 0 && es[k].Kind != "type"; k-- {
+							if es[k].Kind == "hist" || es[k].Kind == "series" {
+								later = "-later-metric"
+							}
+						}
+						r.Violation("native-histogram-spans-buckets-inconsistent"+later+"/"+c35FmtNames[fm], fmt.Sprintf("histogram entry %s whose spans cover %d/%d buckets but %d/%d bucket values are present, parsing %s %q (options %s)", es[i].String(), np, nn, bp, bn, what, b, o), map[string]any{"facet": "bytes", "fmt": fm, "bytes": fmt.Sprintf("%x", b)})
+					}
 				}
 				if es[i].Kind == "series" || es[i].Kind == "hist" {
 					valid := true
@@ -1307,14 +1338,18 @@ func TestVerifC35(t *testing.T) {
 			c35RunFaith(r, c35Case{f.Name, int(i)}, fams, &nontrivial)
 			r.Count("faithfulness_families", 1)
 			n := int64(f.N)
-			if i%vx.Pick(r, int64(997), int64(211)) == 0 || i == n/3 || i == n/2 || i == (2*n)/3 || i == n-1 {
+			rep := i == 0 || i == n/3 || i == n/2 || i == (2*n)/3 || i == n-1
+			if i%vx.Pick(r, int64(997), int64(211)) == 0 || rep {
 				for fm := c35Text; fm <= c35Proto; fm++ {
 					ok := true
 					for _, ff := range fams {
 						ok = ok && c35Expressible(ff, fm)
 					}
 					if p, err := c35Encode(fm, fams); ok && err == nil {
-						validPayloads.Store(fmt.Sprintf("%d|%s", fm, p), [2]any{fm, p})
+						key := fmt.Sprintf("%d|%s", fm, p)
+						if _, had := validPayloads.LoadOrStore(key, [3]any{fm, p, rep}); had && rep {
+							validPayloads.Store(key, [3]any{fm, p, rep})
+						}
 					}
 				}
 			}
@@ -1346,12 +1381,12 @@ func TestVerifC35(t *testing.T) {
 			}
 			if fm == c35OM {
 				c35Total(r, fm, append(append([]byte{}, b...), "\n# EOF\n"...), "short string + EOF marker", &outcomes)
-				if r.Quick() && len(b) >= maxLen {
+				if len(b) >= 5 {
 					r.Count("short_strings", 1)
-					return // quick: without the EOF marker every OpenMetrics string fails at the end anyway
+					return // without the EOF marker every OpenMetrics string fails at the end anyway: lengths <= 4 only
 				}
 			}
-			if r.Quick() && fm == c35Proto && len(b) >= maxLen {
+			if fm == c35Proto && len(b) >= 5 {
 				r.Count("short_strings_skipped_quick", 1)
 				return
 			}
@@ -1361,13 +1396,14 @@ func TestVerifC35(t *testing.T) {
 	}
 	// part 2b: single-byte substitutions and deletions of valid payloads
 	type vp struct {
-		fm int
-		p  []byte
+		fm  int
+		p   []byte
+		rep bool // representative payload: thorough substitutes all 256 byte values
 	}
 	var vps []vp
 	validPayloads.Range(func(_, v any) bool {
-		x := v.([2]any)
-		vps = append(vps, vp{x[0].(int), x[1].([]byte)})
+		x := v.([3]any)
+		vps = append(vps, vp{x[0].(int), x[1].([]byte), x[2].(bool)})
 		return true
 	})
 	sort.Slice(vps, func(i, j int) bool {
@@ -1378,13 +1414,11 @@ func TestVerifC35(t *testing.T) {
 	})
 	r.Set("mutated_valid_payloads", len(vps))
 	var subs [3][]byte
+	var all256 []byte
+	for b := 0; b < 256; b++ {
+		all256 = append(all256, byte(b))
+	}
 	for fm := c35Text; fm <= c35Proto; fm++ {
-		if r.Thorough() {
-			for b := 0; b < 256; b++ {
-				subs[fm] = append(subs[fm], byte(b))
-			}
-			continue
-		}
 		if fm == c35Proto {
 			subs[fm] = append(append([]byte{}, c35AlphaProto...), 0x09, 0x2a, 0x42, 0x10)
 		} else {
@@ -1406,7 +1440,11 @@ func TestVerifC35(t *testing.T) {
 		v := vps[j.v]
 		del := append(append([]byte{}, v.p[:j.pos]...), v.p[j.pos+1:]...)
 		c35Total(r, v.fm, del, "valid payload with one byte deleted", &outcomes)
-		for _, s := range subs[v.fm] {
+		sl := subs[v.fm]
+		if r.Thorough() && v.rep {
+			sl = all256
+		}
+		for _, s := range sl {
 			if s == v.p[j.pos] {
 				continue
 			}
